@@ -374,3 +374,8 @@ def run(rep, program: Program, tier: str) -> None:
     rep.isolate(c09.rule_r9, rep, program, prop=PROP, rule="R6")
     # a flow that reads a cached velocity which *is* another state's momentum array is not the flow of its own state (shared with C09-R8)
     rep.isolate(c09.rule_r8, rep, program, prop=PROP, rule="R7")
+    # "the second flow conserves that component's energy": the component values read before and after a flow must be
+    # those of the current state, i.e. every cached value method declares all state variables it reads (shared with C09-R1)
+    from ..effects import StateEffects
+
+    rep.isolate(c09.rule_r1, rep, program, StateEffects(program), prop=PROP, rule="R8")
